@@ -27,7 +27,7 @@ RULE = ("Generator: sequences (Hypothesis lists / rule-based machine semantics: 
         "perturbation. Distinct by (descriptor, preceding descriptor).")
 ASSUMPTIONS = ["histories are bounded and sampled; thread interleavings are sampled, not enumerated",
                "a Dask graph's reduction tree is fixed by the descriptor (backend + chunking), so results are compared exactly"]
-BUDGET_S = {"quick": 260, "thorough": 1500}
+BUDGET_S = {"quick": 420, "thorough": 1500}
 ENV = {"NUMBA_NUM_THREADS": "16"}
 
 HERE = os.path.dirname(os.path.dirname(os.path.dirname(os.path.abspath(__file__))))
@@ -41,7 +41,7 @@ K = {
 }
 
 
-def raster(rid, dtype, backend, shape=(6, 7), nan=True, sparse=False):
+def raster(rid, dtype, backend, shape=(6, 7), nan=True, sparse=False, cs=None):
     import xarray as xr
     h, w = shape
     i, j = np.mgrid[0:h, 0:w]
@@ -60,7 +60,20 @@ def raster(rid, dtype, backend, shape=(6, 7), nan=True, sparse=False):
     if backend == "dask":
         import dask.array as da
         a = da.from_array(a, chunks=(3, 4))
-    return xr.DataArray(a, dims=["y", "x"], coords={"y": np.arange(h) * 1.0, "x": np.arange(w) * 0.5}, attrs={"res": (0.5, 1.0)})
+    sy, sx = cs or (1.0, 1.0)   # coordinate scale: cell size 1.0*sy by 0.5*sx
+    return xr.DataArray(a, dims=["y", "x"], coords={"y": np.arange(h) * 1.0 * sy, "x": np.arange(w) * 0.5 * sx}, attrs={"res": (0.5 * sx, 1.0 * sy)})
+
+
+def _input_raster(d):
+    """The raster argument of the single-raster families whose result depends on the raster's coordinates."""
+    dt, bk = d.get("dtype", "float64"), d.get("backend", "numpy")
+    if d["t"] == "prox":
+        return raster(d["rid"], dt, bk, shape=tuple(d.get("shape", (6, 7))), sparse=True, cs=d.get("cs"))
+    if d["t"] == "terrain":
+        return raster(d["rid"], dt, bk, cs=d.get("cs"))
+    if d["t"] == "viewshed":
+        return raster(d["rid"], "float64", "numpy", nan=False, cs=d.get("cs"))
+    raise KeyError(d["t"])
 
 
 _ufuncs = {}
@@ -94,8 +107,8 @@ def exec_call(d):
     return canon(out)
 
 
-def build_call(d):
-    """Make the call; a dask-backed result is returned lazy."""
+def build_call(d, given=None):
+    """Make the call; a dask-backed result is returned lazy.  `given`: use this raster OBJECT as the input (body_reuse)."""
     import xrspatial as X
     from xrspatial import classify, convolution, focal, local, multispectral as ms, zonal
     t = d["t"]
@@ -107,7 +120,7 @@ def build_call(d):
                 kw["target_values"] = d["tv"]
             if d["md"] is not None:
                 kw["max_distance"] = d["md"]
-            out = getattr(X, d["fn"])(raster(d["rid"], dt, bk, shape=tuple(d.get("shape", (6, 7))), sparse=True), **kw)
+            out = getattr(X, d["fn"])(given if given is not None else _input_raster(d), **kw)
         elif t == "focal_apply":
             func = _ufunc("wsum") if d["func"] == "u_wsum" else getattr(focal, "_calc_" + d["func"])
             out = focal.apply(raster(d["rid"], dt, bk), np.array(K[d["k"]], dtype="float64"), func)
@@ -158,7 +171,7 @@ def build_call(d):
             else:
                 out = getattr(classify, d["fn"])(r, k=d["k"])
         elif t == "terrain":
-            out = getattr(X, d["fn"])(raster(d["rid"], dt, bk))
+            out = getattr(X, d["fn"])(given if given is not None else _input_raster(d))
         elif t == "astar":
             r = raster(d["rid"], dt, "numpy", nan=False)
             kw = {"connectivity": d["conn"], "snap_start": d["snap"], "snap_goal": d["snap"]}
@@ -182,7 +195,8 @@ def build_call(d):
             else:
                 out = getattr(ms, d["fn"])(a, b)
         elif t == "viewshed":
-            out = X.viewshed(raster(d["rid"], "float64", "numpy", nan=False), x=d["x"], y=d["y"], observer_elev=d["obs"])
+            sy, sx = d.get("cs") or (1.0, 1.0)
+            out = X.viewshed(given if given is not None else _input_raster(d), x=d["x"] * sx, y=d["y"] * sy, observer_elev=d["obs"])
         elif t == "regions":
             out = X.regions(raster(d["rid"], dt, "numpy") % 3, neighborhood=d["conn"])
         elif t == "local":
@@ -459,19 +473,80 @@ def body_joint(case, ctx):
     return r
 
 
-BODIES = {"seq": body_seq, "threads": body_threads, "joint": body_joint}
+def body_reuse(case, ctx):
+    """ONE raster object is analysed, its coordinates are then re-assigned in place (`ras['x'] = ...`, the idiom of the library's own docstrings)
+    and the same call is made again: every result must equal the result, in a fresh interpreter, of that call on a raster built with those
+    coordinates (nothing remembered about the object from the earlier call may leak into the later one)."""
+    r = R()
+    d0 = dict(case["d"], backend="numpy")
+    ds = [_normalise(dict(d0, cs=cs)) for cs in case["scales"]]
+    uniq = {}
+    for d in ds:
+        if key_of(d) not in _BASE:
+            uniq.setdefault(key_of(d), d)
+    if uniq:
+        _BASE.update(fresh_baselines(list(uniq.values())))
+    ras = None
+    for k, d in enumerate(ds):
+        base = _BASE[key_of(d)]
+        if base["kind"] == "error":
+            raise HarnessError("catalogue descriptor fails in a fresh interpreter: %s\n%s" % (d, base["preview"]))
+        tmpl = _input_raster(d)
+        if ras is None:
+            ras = tmpl
+        else:
+            ras["y"] = tmpl["y"].values      # same object, new coordinates
+            ras["x"] = tmpl["x"].values
+            ras.attrs["res"] = tmpl.attrs["res"]
+        try:
+            got = canon(build_call(d, given=ras))
+        except Exception as e:  # noqa
+            r.fail("call_raises_only_on_reused_object[%s]" % d["t"], "descriptor %s raised %s: %s on a raster object used before with other coordinates" % (d, type(e).__name__, e))
+            return r
+        r.label("reuse:t=" + d["t"], "reuse:step=%d" % k)
+        if got["sha"] != base["sha"] or got.get("dtype") != base.get("dtype") or got.get("shape") != base.get("shape"):
+            r.fail("reused_object_differs_from_fresh_interpreter[%s]" % d["t"], "descriptor %s on an object analysed before with coordinate scales %s\n reused object: %s\n fresh interpreter: %s" % (
+                d, case["scales"][:k], got, base))
+            return r
+    r.nt = len({json.dumps(c) for c in case["scales"]}) >= 2
+    r.weight = len(ds)
+    return r
+
+
+def reuse_cases():
+    for t in ("prox", "terrain", "viewshed"):
+        for fn in FIELDS[t].get("fn", [None]):
+            base = {"t": t, "rid": 1}
+            for f, vals in FIELDS[t].items():
+                base[f] = vals[0]
+            if fn is not None:
+                base["fn"] = fn
+            if "dtype" in FIELDS[t]:
+                base["dtype"] = "float64"
+            variants = [base]
+            if t == "prox":
+                variants = [dict(base, md=md, metric=m) for md in (None, 3.0) for m in ("EUCLIDEAN", "MANHATTAN")]
+            if t == "viewshed":
+                variants = [dict(base, x=1.5, y=2.0, obs=2.0)]
+            for b in variants:
+                yield {"sub": "reuse", "d": _normalise(b), "scales": [None, [2.0, 3.0], [1.0, 0.5], None],
+                       "enum": ["reuse", t, fn, b.get("md"), b.get("metric")]}
+
+
+BODIES = {"seq": body_seq, "threads": body_threads, "joint": body_joint, "reuse": body_reuse}
 
 
 # ---------------------------------------------------------------- strategies
 
 DTS = ["float64", "float32", "int32"]
+CSS = [None, [2.0, 3.0], [1.0, 0.5]]   # coordinate scale of the input raster (same cells, other cell size)
 BKS = ["numpy", "numpy", "dask"]
 
 # table-driven catalogue: family -> {field: candidate values}; a descriptor draws every field, a VARIANT re-draws one or two
 # fields of an existing descriptor (histories of calls that differ in a few parameters are what the property is about)
 FIELDS = {
     "prox": {"fn": ["proximity", "allocation", "direction"], "tv": [None, [3], [3, 5], [0]], "md": [None, 2.0, 3.0, 6.0, 50.0],
-             "metric": ["EUCLIDEAN", "MANHATTAN"], "shape": [[6, 7], [3, 3], [9, 8]], "dtype": DTS, "backend": BKS},
+             "metric": ["EUCLIDEAN", "MANHATTAN"], "shape": [[6, 7], [3, 3], [9, 8]], "dtype": DTS, "backend": BKS, "cs": CSS},
     "focal_apply": {"k": ["cross3", "row3", "asym5x3"], "func": ["mean", "max", "std", "u_wsum"], "dtype": DTS, "backend": BKS},
     "focal_stats": {"k": ["cross3", "row3"], "stats": [None, ["max", "sum"], ["mean"]], "dtype": DTS, "backend": BKS},
     "conv": {"k": ["w3", "w1x5", "cross3"], "dtype": DTS, "backend": BKS},
@@ -483,14 +558,14 @@ FIELDS = {
     "classify": {"fn": ["quantile", "natural_breaks", "equal_interval", "binary", "reclassify"], "dtype": DTS, "backend": BKS,
                  "values": [[1, 2], [0.5], [3, -1, 2]], "bins": [[0, 2, 4], [1, 9], [-1, 0, 1, 2, 3]], "k": [2, 3, 5],
                  "num_sample": [None, 30, 12, 20]},
-    "terrain": {"fn": ["slope", "aspect", "curvature", "hillshade"], "dtype": DTS, "backend": BKS},
+    "terrain": {"fn": ["slope", "aspect", "curvature", "hillshade"], "dtype": DTS, "backend": BKS, "cs": CSS},
     "astar": {"barriers": [None, [0], [0, 1]], "conn": [4, 8], "snap": [False, True], "dtype": DTS},
     "perlin": {"seed": [0, 1, 2, 3], "freq": [[1, 1], [2, 3]], "shape": [[5, 6], [8, 4]], "dtype": ["float64", "float32"], "backend": BKS},
     "gen_terrain": {"seed": [0, 1, 2], "zfactor": [4000, 10], "shape": [[5, 6], [8, 4]], "dtype": ["float64"], "backend": BKS,
                     # x_range / y_range matter only relative to full_extent (tiles of one terrain): the first, default-for-sweeps value is a real extent
                     "xr": [None, [0, 250], [250, 500]], "yr": [None, [100, 350]], "fe": [[0, 0, 500, 500], None, [0, 0, 1000, 500]]},
     "spectral": {"fn": ["ndvi", "evi", "savi", "nbr"], "p": [1.0, 0.5, 0.0], "dtype": ["float64", "float32", "int32", "uint8"], "backend": BKS},
-    "viewshed": {"x": [0.0, 1.5, 3.0], "y": [0.0, 2.0, 5.0], "obs": [0.0, 2.0]},
+    "viewshed": {"x": [0.0, 1.5, 3.0], "y": [0.0, 2.0, 5.0], "obs": [0.0, 2.0], "cs": CSS},
     "regions": {"conn": [4, 8], "dtype": DTS},
     "local": {"fn": ["cell_stats", "rank", "popularity", "greater_frequency"], "func": ["sum", "max", "std"], "dtype": ["float64", "int32"]},
 }
@@ -514,13 +589,17 @@ def _normalise(d):
     if d["t"] == "gen_terrain":
         for f in ("xr", "yr", "fe"):
             d.setdefault(f, None)
+    if d["t"] in ("prox", "terrain", "viewshed"):
+        d.setdefault("cs", None)
     if d["t"] == "prox" and d.get("backend") == "dask" and d.get("md") is not None:
         # stated domain of the dask path (property C07): the halo, in cells, must not exceed the raster's own height/width, unless max_distance
         # reaches the raster's extent (single-block path).  raster(): y step 1.0, x step 0.5
         h, w = d.get("shape") or (6, 7)
-        ey, ex = (h - 1) * 1.0, (w - 1) * 0.5
+        sy, sx = d.get("cs") or (1.0, 1.0)
+        cy, cx = 1.0 * sy, 0.5 * sx
+        ey, ex = (h - 1) * cy, (w - 1) * cx
         extent = (ey + ex) if d.get("metric") == "MANHATTAN" else (ey * ey + ex * ex) ** 0.5
-        if d["md"] < extent and (int(d["md"] / 1.0 + 0.5) > h or int(d["md"] / 0.5 + 0.5) > w):
+        if d["md"] < extent and (int(d["md"] / cy + 0.5) > h or int(d["md"] / cx + 0.5) > w):
             d["backend"] = "numpy"
     if d["t"] == "classify":
         fn = d["fn"]
@@ -697,10 +776,17 @@ def shards(tier):
     out.append(("joint_generators", lambda ctx: drive_hypothesis(ctx, body_joint, joint_cases(gens), njoint, shrink=(tier == "thorough"))))
     for bi in range(2):
         out.append(("joint_rasterfns#%d" % bi, lambda ctx, bi=bi: drive_hypothesis(ctx, body_joint, joint_cases(rest[bi::2]), njoint, shrink=(tier == "thorough"))))
-    groups = [["perlin", "gen_terrain"], ["prox"], ["focal_apply", "focal_stats", "conv"], ["focal_mean", "hotspots", "terrain"], ["classify", "spectral"]]
+    groups = [["perlin", "gen_terrain"], ["focal_apply", "focal_stats", "conv"], ["focal_mean", "hotspots", "terrain"], ["classify", "spectral"]]
     for gi, g in enumerate(groups):
         out.append(("joint_sweep_%s" % "+".join(g)[:24], lambda ctx, g=g: drive_enum(
             ctx, body_joint, joint_sweep_cases(g), space="designed joint evaluations: one-parameter families of lazy results (%s)" % "+".join(g))))
+    for fn in ("proximity", "allocation", "direction"):   # one shard per function: each closure-compiled call costs ~1.3 s
+        out.append(("joint_sweep_prox_%s" % fn, lambda ctx, fn=fn: drive_enum(
+            ctx, body_joint, [c for c in joint_sweep_cases(["prox"]) if c["ds"][0]["fn"] == fn],
+            space="designed joint evaluations: one-parameter families of lazy results (prox: %s)" % fn)))
+    rc = list(reuse_cases())
+    for bi in range(2):
+        out.append(("reuse#%d" % bi, lambda ctx, bi=bi: drive_enum(ctx, body_reuse, rc[bi::2], space="same raster object re-used after its coordinates were re-assigned in place (prox x metric x limit, terrain, viewshed)", size=len(rc[bi::2]))))
     for fn in ("proximity", "allocation", "direction"):
         out.append(("alt_prox_%s" % fn, lambda ctx, fn=fn: drive_enum(ctx, body_seq, alt_prox_cases(fn), space="designed proximity alternation histories (%s)" % fn, size=4)))
     for bi in range(2):
